@@ -265,8 +265,16 @@ pub fn write_replay(prop: &str, job: &Job, v: &Violation, trace: &Value, minimis
     let dir = format!("{VERIF}/replays");
     let _ = std::fs::create_dir_all(&dir);
     let path = format!("{dir}/{}-{}-{}.json", prop, v.class.replace(|c: char| !c.is_ascii_alphanumeric() && c != '_', "_"), job.seed);
+    let verif_commit = std::process::Command::new("git")
+        .args(["-C", VERIF, "rev-parse", "--short", "HEAD"])
+        .output()
+        .ok()
+        .map(|o| String::from_utf8_lossy(&o.stdout).trim().to_string())
+        .unwrap_or_default();
     let body = json!({
         "property": prop,
+        "verif_commit": verif_commit,
+        "replay_mode": if trace.get("decisions").is_some() { "by trace (script + decisions)" } else { "by seed (re-generates the history: tied to this version of the generator and corpus)" },
         "engine": job.engine,
         "tier": job.tier,
         "seed": job.seed,
